@@ -151,7 +151,7 @@ def main(chk):
             chk.violation('C18:translate', 'module rejected: %s' % t.err[-300:], {'module.wasm': b})
             return
         srcs = [os.path.join(d, f) for f in t.files if f.endswith('.c')] + [os.path.join(env.VERIF, 'harness', 'grow_stress.c')] + [os.path.join(env.REPO, 'futex', f) for f in ('futex.c', 'list.c', 'map.c')]
-        for tag, fl in (('plain', ['-O1', '-g', '-DW2C2_VERIF=1']), ('tsan', ['-O1', '-g', '-fsanitize=thread', '-DW2C2_VERIF=1']), ('noguard', ['-O2'])):
+        for tag, fl in (('plain', ['-O1', '-g', '-DW2C2_VERIF=1']), ('tsan', ['-O1', '-g', '-fsanitize=thread', '-DW2C2_VERIF=1']), ('noguard', ['-O2', '-DNDEBUG'])):   # the release configuration of an embedder: hooks off, assertions compiled out
             exe = os.path.join(d, 'gs-' + tag)
             r = env.run(['gcc'] + fl + ['-w', '-DWASM_THREADS_PTHREADS', '-I', e2e.base_include(), '-I', os.path.join(env.REPO, 'futex'), '-I', d] + srcs + ['-o', exe, '-lpthread', '-lm'], timeout=600)
             if r.rc != 0:
@@ -170,14 +170,23 @@ def main(chk):
         n = r0.choice([20, 50, 100, 200])
         jobs.append((k, li, tag, T, n))
 
+    hangs = {}
+
     def one(job):
         k, li, tag, T, n = job
-        r = env.run([exes[(li, tag)], str(env.SEED * 100000 + k), str(T), str(n), '1'], env=dict(env.SAN_ENV, TSAN_OPTIONS='halt_on_error=0:exitcode=0:report_thread_leaks=0'), timeout=300)
+        if hangs.get(tag, 0) >= 3:
+            return job, None          # three runs of this build already hung (each reported): do not spend the watchdog on every remaining one
+        r = env.run([exes[(li, tag)], str(env.SEED * 100000 + k), str(T), str(n), '1'], env=dict(env.SAN_ENV, TSAN_OPTIONS='halt_on_error=0:exitcode=0:report_thread_leaks=0'), timeout=90)
+        if r.timeout:
+            hangs[tag] = hangs.get(tag, 0) + 1
         return job, r
 
     sigs = set()
     contended = 0
     for (k, li, tag, T, n), r in env.pmap(one, jobs):
+        if r is None:
+            chk.observe('runs_skipped_after_three_hangs_' + tag)
+            continue
         cmd = 'grow_stress[%s limits=%s] %d %d %d 1' % (tag, limits[li], env.SEED * 100000 + k, T, n)
         files = {'cmd.txt': cmd, 'stdout.txt': r.out[-100000:], 'stderr.txt': r.err[-10000:]}
         for rp in san.parse_tsan(r.err, env.REPO):
